@@ -5,7 +5,7 @@ from dataclasses import dataclass
 import sys
 
 from geneticengine.grammar.grammar import Grammar
-from geneticengine.random.sources import RandomSource
+from geneticengine.random.sources import RandomSource, clamp_float
 from geneticengine.representations.api import (
     RepresentationWithCrossover,
     RepresentationWithMutation,
@@ -50,8 +50,8 @@ class StructuredListWrapper(RandomSource):
     ) -> float:
         k = self.randint(1, sys.maxsize)
         v = 1 * (max - min) / k + min
-        # (min + (max - min) can round above max)
-        return max if v > max else v
+        # (rounding, or integer bounds without an exact float form, can leave the range by one ulp)
+        return clamp_float(v, min, max)
 
 
 class StructuredGrammaticalEvolutionRepresentation(
